@@ -1,15 +1,29 @@
 // Unit c20_value_codec -- property C20 "SBOR values round-trip and have a unique encoding" (the generic Value codec)
 // Real code (bodies extracted verbatim):
-//   sbor/src/value.rs      enum Value, Value::get_value_kind, <Value as Encode>::{encode_value_kind, encode_body},
-//                          <Value as Decode>::decode_body_with_value_kind
+//   sbor/src/value.rs      enum Value, Value::get_value_kind, the bodies of `impl Encode for Value`::{encode_value_kind, encode_body}
+//                          and `impl Decode for Value`::decode_body_with_value_kind (placed in an inherent impl, see below)
 //   sbor/src/encoder.rs    provided methods Encoder::{encode, write_value_kind, write_discriminator, write_size},
 //                          VecEncoder::{new, track_stack_depth_increase, track_stack_depth_decrease},
 //                          <VecEncoder as Encoder>::{encode_deeper_body, write_byte}
+//   sbor/src/decoder.rs    provided methods Decoder::{decode, read_value_kind, read_discriminator, read_size, check_preloaded_value_kind},
+//                          VecDecoder::{new, require_remaining, remaining_bytes, track_stack_depth_increase, track_stack_depth_decrease},
+//                          <VecDecoder as Decoder>::{decode_deeper_body_with_value_kind, read_byte}
 //   sbor/src/value_kind.rs enum ValueKind, ValueKind::{as_u8, from_u8}
-//   sbor/src/codec/{boolean.rs, integer.rs}   Encode for bool / i8 / u8
-// METHOD: the recursion of the codec goes through the trait methods encoder.encode(child) / encode_deeper_body(child),
-//   so every function is verified as ONE inductive step against the trait-level contracts of `Encode`
-//   (stated over the spec companion trait `Wire`: kind / body / encodable of a value).
+//   sbor/src/codec/{boolean.rs, integer.rs}   Encode + Decode for bool / u8
+//   radix-common/src/data/{scrypto,manifest}/custom_value_kind.rs   the two CustomValueKind impls (+ the law as_u8/from_u8 inverse)
+// METHOD: the recursion of the codec goes through the trait methods encoder.encode(child) / encode_deeper_body(child) /
+//   decoder.decode() / decode_deeper_body_with_value_kind(kind), so every function is verified as ONE inductive step against
+//   the trait-level contracts of `Encode` / `Decode`, stated over the spec companion trait `Wire` (kind / body / encodable of a
+//   value). Verus rejects `impl Encode for Value` calling `encoder.encode::<Value>` (recursion through the trait dictionary):
+//   the trait impls for Value are declared in `env` with exactly the trait contract (= induction hypothesis) and the verbatim
+//   bodies are verified against the same contract predicates as inherent methods (3 @subst: type parameter moved to the method).
+// ORACLE (from the SBOR wire format): enc_body / enc / encodable / height below; leb = LEB128 as in unit c20_size_codec
+//   (write_size / read_size are re-proved here with the proof text of that unit, so that no size contract is assumed).
+// SPEC-LEVEL THEOREMS on top of the contracts: lemma_reencode_same_bytes (an accepted payload re-encodes to exactly the bytes
+//   consumed), lemma_encodable_height (depth), lemma_prefix_free ff. (the format is a prefix-free, injective code) and its
+//   corollary lemma_decode_returns_encoded (a decoder that accepts enc_body(v) ++ tail returns v).
+// NOT covered: completeness of the decoder (that enc(v) ++ tail IS accepted), the primitive codecs other than bool / u8,
+//   String / UTF-8, all custom value codecs, typed (derive-generated) codecs, payload prefix.
 use vstd::prelude::*;
 verus! {
 global size_of usize == 8;
@@ -177,28 +191,17 @@ pub mod env {
     pub open spec fn wf_at(input: Seq<u8>, pos: int) -> bool { 0 <= pos <= input.len() }
     pub open spec fn wf_dec(input: Seq<u8>, pos: int, depths: (int, int)) -> bool { wf_at(input, pos) && wf_depths(depths) }
 
-    /// Ghost state of a decoder + the one provided method of `sbor::Decoder` that is NOT re-verified here.
-    /// ASSUMED contract of `read_size` = (part of) what unit c20_size_codec PROVES for its verbatim body: accepted ==>
-    /// the consumed bytes are exactly the canonical LEB128 encoding of the result; an input starting with leb(n) is read as n.
+    /// Ghost state of a decoder
     pub trait DecoderState: Sized {
         spec fn input(&self) -> Seq<u8>;
         spec fn pos(&self) -> int;
         /// (stack_depth, max_depth)
         spec fn depths(&self) -> (int, int);
-        fn read_size(&mut self) -> (ret: Result<usize, DecodeError>)
-            requires wf_at(old(self).input(), old(self).pos())
-            ensures
-                wf_at(final(self).input(), final(self).pos()), final(self).input() == old(self).input(), final(self).depths() == old(self).depths(),
-                ret matches Ok(n) ==> n <= 0x0FFF_FFFF && is_prefix(leb(n as nat), rest_of(old(self).input(), old(self).pos()))
-                    && final(self).pos() == old(self).pos() + leb(n as nat).len(),
-                forall|n: nat| n <= 0x0FFF_FFFF && is_prefix(#[trigger] leb(n), rest_of(old(self).input(), old(self).pos())) ==> ret == Ok::<usize, DecodeError>(n as usize);
     }
     impl<'de, X: CustomValueKind> DecoderState for super::unit::VecDecoder<'de, X> {
         open spec fn input(&self) -> Seq<u8> { self.input@ }
         open spec fn pos(&self) -> int { self.offset as int }
         open spec fn depths(&self) -> (int, int) { (self.stack_depth as int, self.max_depth as int) }
-        #[verifier::external_body]
-        fn read_size(&mut self) -> (ret: Result<usize, DecodeError>) { unimplemented!() }
     }
 
     /// CONTRACT of `Decode::decode_body_with_value_kind` (D1): on Ok(v) the value has the requested kind, the bytes
@@ -273,6 +276,15 @@ pub mod env {
     pub trait CustomValue<X: CustomValueKind>: Wire<X> {
         fn get_custom_value_kind(&self) -> (r: X)
             ensures ValueKind::Custom(r) == self.kind();
+        /// equality of two custom values as far as the wire format can see
+        spec fn same(&self, other: &Self) -> bool;
+        /// LAWS used ONLY by the prefix-freeness lemmas (lemma_prefix_free ff.): a custom value announces a custom kind, and
+        /// the bodies of the custom values of one kind form a prefix-free code
+        proof fn law_kind(&self)
+            ensures self.kind() is Custom;
+        proof fn law_prefix_free(&self, other: &Self, ba: int, bb: int, tail: Seq<u8>)
+            requires self.kind() == other.kind(), self.encodable(ba), other.encodable(bb), is_prefix(self.body(), other.body() + tail)
+            ensures self.body() == other.body(), self.same(other);
     }
 
     /// sbor/src/categorize.rs :: trait Categorize; ASSUMED instances = the `categorize_simple!` invocations in
@@ -906,8 +918,6 @@ pub mod unit {
                 fields@.len() <= max_size(),
                 encoder.out() =~= old(encoder).out() + seq![*discriminator] + leb(fields@.len() as nat) + enc_list(*fields, it.index@ as nat, true),
                 forall|j: int| 0 <= j < it.index@ ==> budget(old(encoder).depths()) >= 1 && encodable(#[trigger] fields@[j], budget(old(encoder).depths()) - 1),
-        @before <<encoder.encode(field)?>> #1
-            proof { assert(*field == fields@[it.index@ as int]); }
         @loop 2 iter it
             invariant
                 *self is Array, self->Array_elements == *elements, self->Array_element_value_kind == *element_value_kind,
@@ -916,8 +926,6 @@ pub mod unit {
                 encoder.out() =~= old(encoder).out() + seq![kind_byte(*element_value_kind)] + leb(elements@.len() as nat) + enc_list(*elements, it.index@ as nat, false),
                 forall|j: int| 0 <= j < it.index@ ==> kind_of(#[trigger] elements@[j]) == *element_value_kind
                     && budget(old(encoder).depths()) >= 1 && encodable(elements@[j], budget(old(encoder).depths()) - 1),
-        @before <<encoder.encode_deeper_body(item)?>> #1
-            proof { assert(*item == elements@[it.index@ as int]); }
         @loop 3 iter it
             invariant
                 *self is Tuple, self->Tuple_fields == *fields,
@@ -925,8 +933,6 @@ pub mod unit {
                 fields@.len() <= max_size(),
                 encoder.out() =~= old(encoder).out() + leb(fields@.len() as nat) + enc_list(*fields, it.index@ as nat, true),
                 forall|j: int| 0 <= j < it.index@ ==> budget(old(encoder).depths()) >= 1 && encodable(#[trigger] fields@[j], budget(old(encoder).depths()) - 1),
-        @before <<encoder.encode(field)?>> #2
-            proof { assert(*field == fields@[it.index@ as int]); }
         @loop 4 iter it
             invariant
                 *self is Map, self->Map_entries == *entries, self->Map_key_value_kind == *key_value_kind, self->Map_value_value_kind == *value_value_kind,
@@ -951,6 +957,225 @@ pub mod unit {
     // =============================================================================================
     // the decoder (sbor/src/decoder.rs)
     // =============================================================================================
+    // ---- LEB128 size prefix: proof vocabulary and lemmas (as in unit c20_size_codec) ----------------
+    pub open spec fn p128(k: nat) -> nat
+        decreases k
+    {
+        if k == 0 { 1 } else { 128 * p128((k - 1) as nat) }
+    }
+    /// value of a digit string (continuation bits ignored)
+    pub open spec fn val(s: Seq<u8>) -> nat
+        decreases s.len()
+    {
+        if s.len() == 0 { 0 } else { (s[0] % 128) as nat + 128 * val(s.drop_first()) }
+    }
+    /// shape of a minimal LEB128 string: continuation bit on all digits but the last, and no
+    /// redundant most-significant zero digit
+    pub open spec fn canon(s: Seq<u8>) -> bool {
+        &&& s.len() >= 1
+        &&& forall|j: int| 0 <= j < s.len() - 1 ==> s[j] >= 128
+        &&& s.last() < 128
+        &&& (s.len() > 1 ==> s.last() != 0)
+    }
+
+    pub proof fn lemma_p128()
+        ensures p128(0) == 1, p128(1) == 128, p128(2) == 16384, p128(3) == 2097152, p128(4) == 268435456,
+    {
+        reveal_with_fuel(p128, 6);
+    }
+
+    /// leb(n) is canonical and denotes n
+    pub proof fn lemma_leb_canon(n: nat)
+        ensures canon(leb(n)), val(leb(n)) == n,
+        decreases n
+    {
+        if n < 128 {
+            let s = leb(n);
+            assert(s.drop_first() =~= Seq::<u8>::empty());
+            assert(val(s.drop_first()) == 0);
+        } else {
+            let t = leb(n / 128);
+            let h = (n % 128 + 128) as u8;
+            let s = leb(n);
+            lemma_leb_canon(n / 128);
+            assert(s == seq![h] + t);
+            assert(s.drop_first() =~= t);
+            assert(s[0] == h);
+            assert(h % 128 == n % 128);
+            assert(val(s) == (h % 128) as nat + 128 * val(t));
+            assert forall|j: int| 0 <= j < s.len() - 1 implies s[j] >= 128 by {
+                if j > 0 { assert(s[j] == t[j - 1]); }
+            }
+            assert(s.last() == t.last());
+            if t.len() == 1 {
+                assert(t.drop_first() =~= Seq::<u8>::empty());
+                assert(val(t) == (t[0] % 128) as nat);
+            }
+        }
+    }
+
+    pub proof fn lemma_leb_len(n: nat, k: nat)
+        requires k >= 1, n < p128(k)
+        ensures leb(n).len() <= k
+        decreases k
+    {
+        lemma_p128();
+        if n >= 128 {
+            if k == 1 { assert(false); }
+            assert(n / 128 < p128((k - 1) as nat)) by (nonlinear_arith)
+                requires n < 128 * p128((k - 1) as nat);
+            lemma_leb_len(n / 128, (k - 1) as nat);
+        }
+    }
+
+    pub proof fn lemma_val_bound(s: Seq<u8>)
+        ensures val(s) < p128(s.len())
+        decreases s.len()
+    {
+        if s.len() > 0 { lemma_val_bound(s.drop_first()); }
+    }
+
+    pub proof fn lemma_val_pos(s: Seq<u8>)
+        requires s.len() >= 1, s.last() % 128 != 0
+        ensures val(s) > 0
+        decreases s.len()
+    {
+        if s.len() > 1 {
+            assert(s.drop_first().last() == s.last());
+            lemma_val_pos(s.drop_first());
+        }
+    }
+
+    /// appending a most-significant digit
+    pub proof fn lemma_val_push(s: Seq<u8>, b: u8)
+        ensures val(s.push(b)) == val(s) + ((b % 128) as nat) * p128(s.len())
+        decreases s.len()
+    {
+        let x = (b % 128) as nat;
+        let sb = s.push(b);
+        if s.len() == 0 {
+            assert(sb.drop_first() =~= Seq::<u8>::empty());
+            assert(val(sb.drop_first()) == 0);
+            assert(sb[0] == b);
+            assert(val(sb) == x + 128 * 0);
+            assert(val(s) == 0);
+            assert(p128(0) == 1);
+            assert(x * 1 == x);
+        } else {
+            let t = s.drop_first();
+            lemma_val_push(t, b);
+            assert(sb.drop_first() =~= t.push(b));
+            assert(sb[0] == s[0]);
+            let h = (s[0] % 128) as nat;
+            let p = p128(t.len());
+            let vt = val(t);
+            assert(t.len() == s.len() - 1);
+            assert(p128(s.len()) == 128 * p128((s.len() - 1) as nat));
+            assert(p128(s.len()) == 128 * p);
+            assert(val(t.push(b)) == vt + x * p);
+            assert(val(sb) == h + 128 * val(sb.drop_first()));
+            assert(val(sb) == h + 128 * (vt + x * p));
+            assert(val(s) == h + 128 * vt);
+            assert(128 * (vt + x * p) == 128 * vt + x * (128 * p)) by (nonlinear_arith);
+            assert(x * p128(s.len()) == x * (128 * p));
+        }
+    }
+
+    /// CANONICITY core: a canonical digit string is the encoding of its own value
+    pub proof fn lemma_canon_leb(s: Seq<u8>)
+        requires canon(s)
+        ensures leb(val(s)) == s
+        decreases s.len()
+    {
+        if s.len() == 1 {
+            assert(s.drop_first() =~= Seq::<u8>::empty());
+            assert(val(s.drop_first()) == 0);
+            assert(val(s) == s[0] as nat);
+            assert(leb(val(s)) =~= s);
+        } else {
+            let t = s.drop_first();
+            assert(t.last() == s.last());
+            assert forall|j: int| 0 <= j < t.len() - 1 implies t[j] >= 128 by { assert(t[j] == s[j + 1]); }
+            assert(canon(t));
+            lemma_canon_leb(t);
+            lemma_val_pos(t);
+            let v = val(s);
+            assert(s[0] >= 128);
+            assert(v == (s[0] % 128) as nat + 128 * val(t));
+            assert(v >= 128);
+            assert(v / 128 == val(t));
+            assert(v % 128 == (s[0] % 128) as nat);
+            assert((v % 128 + 128) as u8 == s[0]);
+            assert(leb(v) == seq![s[0]] + leb(val(t)));
+            assert(seq![s[0]] + t =~= s);
+        }
+    }
+
+    /// PREFIX-FREENESS: at most one canonical string is a prefix of a given input
+    pub proof fn lemma_prefix_unique(a: Seq<u8>, b: Seq<u8>, r: Seq<u8>)
+        requires canon(a), canon(b), is_prefix(a, r), is_prefix(b, r)
+        ensures a == b
+    {
+        if a.len() < b.len() {
+            assert(b[a.len() - 1] == r[a.len() - 1]);
+            assert(a[a.len() - 1] == r[a.len() - 1]);
+            assert(false);
+        }
+        if b.len() < a.len() {
+            assert(a[b.len() - 1] == r[b.len() - 1]);
+            assert(b[b.len() - 1] == r[b.len() - 1]);
+            assert(false);
+        }
+        assert(a =~= b);
+    }
+
+    /// C20 "every value has one encoding" for sizes: the encoding is injective and prefix-free,
+    /// so a size followed by arbitrary bytes is parsed in exactly one way.
+    pub proof fn lemma_leb_unique(a: nat, b: nat, tail: Seq<u8>)
+        requires is_prefix(leb(a), leb(b) + tail)
+        ensures a == b
+    {
+        lemma_leb_canon(a);
+        lemma_leb_canon(b);
+        let r = leb(b) + tail;
+        assert(is_prefix(leb(b), r));
+        lemma_prefix_unique(leb(a), leb(b), r);
+    }
+
+    /// sizes within the limit use 1..=4 bytes
+    pub proof fn lemma_leb_max(n: nat)
+        requires n <= max_size()
+        ensures 1 <= leb(n).len() <= 4
+    {
+        lemma_p128();
+        lemma_leb_len(n, 4);
+        lemma_leb_canon(n);
+    }
+
+    /// a digit < 128 placed at digit position i (shift 7*i) of an accumulator that is < 128^i
+    pub proof fn lemma_bv_read(sp: usize, b: u8, i: int)
+        requires 0 <= i < 4, sp < p128(i as nat)
+        ensures
+            i == 0 ==> (sp | (((b & 0x7F) as usize) << 0)) == sp + (b % 128) * p128(0),
+            i == 1 ==> (sp | (((b & 0x7F) as usize) << 7)) == sp + (b % 128) * p128(1),
+            i == 2 ==> (sp | (((b & 0x7F) as usize) << 14)) == sp + (b % 128) * p128(2),
+            i == 3 ==> (sp | (((b & 0x7F) as usize) << 21)) == sp + (b % 128) * p128(3),
+    {
+        lemma_p128();
+        let d: u8 = b & 0x7F;
+        assert(d == b % 128) by (bit_vector) requires d == b & 0x7F;
+        let x: usize = d as usize;
+        assert(x < 128);
+        assert(sp < 1 ==> (sp | (x << 0)) == sp + x * 1) by (bit_vector) requires x < 128;
+        assert(sp < 128 ==> (sp | (x << 7)) == sp + x * 128) by (bit_vector) requires x < 128;
+        assert(sp < 16384 ==> (sp | (x << 14)) == sp + x * 16384) by (bit_vector) requires x < 128;
+        assert(sp < 2097152 ==> (sp | (x << 21)) == sp + x * 2097152) by (bit_vector) requires x < 128;
+    }
+
+    /// (typed equality: fixes the type of the late-initialised local `byte` for rustc's inference)
+    pub open spec fn same_byte(a: u8, b: u8) -> bool { a == b }
+
+
     /// a kind byte accepted by the decoder is the byte the encoder writes for that kind
     pub proof fn lemma_kind_bytes<X: CustomValueKind>(b: u8)
         ensures byte_kind::<X>(b) matches Some(k) ==> kind_byte(k) == b
@@ -1019,6 +1244,103 @@ pub mod unit {
                     && old(self).pos() <= final(self).pos() <= old(self).input().len()
                     && old(self).input().subrange(old(self).pos(), final(self).pos()) =~= v.body()
                     && passes(&v, budget(old(self).depths()));
+
+        /*@fn sbor/src/decoder.rs :: trait Decoder<X: CustomValueKind>: Sized :: fn read_size
+        @sig
+            requires wf_at(old(self).input(), old(self).pos())
+            ensures
+                wf_at(final(self).input(), final(self).pos()), final(self).input() == old(self).input(), final(self).depths() == old(self).depths(),
+                // accepted  ==> the consumed bytes are exactly the (canonical) encoding of the result
+                ret matches Ok(n) ==> n <= 0x0FFF_FFFF && is_prefix(leb(n as nat), rest_of(old(self).input(), old(self).pos()))
+                    && final(self).pos() == old(self).pos() + leb(n as nat).len(),
+                // rejected  ==> the input does not start with the encoding of any legal size
+                ret is Err ==> forall|n: nat| n <= max_size() ==> !is_prefix(#[trigger] leb(n), rest_of(old(self).input(), old(self).pos())),
+                // hence (prefix-freeness): an input that starts with leb(n) is read back as n
+                forall|n: nat| n <= max_size() && is_prefix(#[trigger] leb(n), rest_of(old(self).input(), old(self).pos())) ==> ret == Ok::<usize, DecodeError>(n as usize),
+                // error classification: anything but a truncated input is InvalidSize
+                ret matches Err(e) ==> e == DecodeError::InvalidSize
+                    || (rest_of(old(self).input(), old(self).pos()).len() < 4 && forall|j: int| 0 <= j < rest_of(old(self).input(), old(self).pos()).len() ==> rest_of(old(self).input(), old(self).pos())[j] >= 128),
+                ret matches Err(e) ==> final(self).pos() >= old(self).pos()
+        @entry
+            let ghost pos0 = self.pos();
+            let ghost inp = self.input();
+            let ghost rem = rest_of(self.input(), self.pos());
+            let ghost mut i: int = 0;
+            proof {
+                assert(0 <= pos0 <= inp.len());
+                assert(rem == inp.subrange(pos0, inp.len() as int));
+                assert(rem.len() == inp.len() - pos0);
+                assert(rem.subrange(0, 0) =~= Seq::<u8>::empty()); lemma_p128(); }
+        @loop 1
+            invariant_except_break
+                0 <= i < 4, shift == 7 * i,
+                self.pos() == pos0 + i,
+                size == val(rem.subrange(0, i)),
+            invariant
+                wf_at(self.input(), self.pos()), self.input() == inp, self.depths() == old(self).depths(),
+                pos0 == old(self).pos(), inp == old(self).input(), rem == rest_of(old(self).input(), old(self).pos()), wf_at(old(self).input(), old(self).pos()),
+                rem.len() == inp.len() - pos0,
+                forall|j: int| 0 <= j < i ==> rem[j] >= 128,
+                forall|n: nat| n <= max_size() && is_prefix(#[trigger] leb(n), rem) ==> leb(n).len() > i,
+            ensures
+                0 <= i < 4, shift == 7 * i, i < rem.len(),
+                same_byte(byte, rem[i]), byte < 128,
+                self.pos() == pos0 + i + 1,
+                size == val(rem.subrange(0, i + 1)),
+            decreases 4 - i
+        @before <<size |=>> #1
+            let ghost sp = size;
+            proof {
+                assert(byte == inp[pos0 + i]);
+                assert(byte == rem[i]);
+                lemma_val_bound(rem.subrange(0, i));
+                lemma_bv_read(sp, byte, i);
+            }
+        @after <<size |=>> #1
+            proof {
+                lemma_val_push(rem.subrange(0, i), byte);
+                assert(rem.subrange(0, i).push(byte) =~= rem.subrange(0, i + 1));
+            }
+        @after <<shift +=>> #1
+            proof {
+                assert forall|n: nat| n <= max_size() && is_prefix(#[trigger] leb(n), rem) implies leb(n).len() > i + 1 by {
+                    lemma_leb_canon(n);
+                    if leb(n).len() == i + 1 { assert(leb(n)[i] == rem[i]); }
+                }
+                i = i + 1;
+            }
+        @before <<return Err(DecodeError::InvalidSize)>> #1
+            proof {
+                assert forall|n: nat| n <= max_size() implies !is_prefix(#[trigger] leb(n), rem) by {
+                    lemma_leb_max(n);
+                }
+            }
+        @before <<return Err(DecodeError::InvalidSize)>> #2
+            proof {
+                assert forall|n: nat| n <= max_size() implies !is_prefix(#[trigger] leb(n), rem) by {
+                    lemma_leb_canon(n);
+                    if is_prefix(leb(n), rem) {
+                        let m = leb(n).len() as int;
+                        assert(m > i);
+                        if m > i + 1 { assert(leb(n)[i] == rem[i]); }
+                        assert(leb(n)[m - 1] == rem[m - 1]);
+                    }
+                }
+            }
+        @before <<Ok(size)>> #1
+            proof {
+                let c = rem.subrange(0, i + 1);
+                assert(canon(c));
+                lemma_canon_leb(c);
+                lemma_val_bound(c);
+                assert(is_prefix(leb(size as nat), rem));
+                assert forall|n: nat| n <= max_size() && is_prefix(#[trigger] leb(n), rem) implies n == size by {
+                    lemma_leb_canon(n);
+                    lemma_leb_canon(size as nat);
+                    lemma_prefix_unique(leb(n), leb(size as nat), rem);
+                }
+            }
+        @*/
 
         /*@fn sbor/src/decoder.rs :: trait Decoder<X: CustomValueKind>: Sized :: fn read_value_kind
         @sig
@@ -1116,7 +1438,7 @@ pub mod unit {
         @entry
             let ghost inp = decoder.input(); let ghost p0 = decoder.pos(); let ghost d0 = decoder.depths(); let ghost b = budget(decoder.depths());
             proof { if p0 < inp.len() { lemma_kind_bytes::<X>(inp[p0]); } if p0 + 1 < inp.len() { lemma_kind_bytes::<X>(inp[p0 + 1]); } }
-        @after <<let length = decoder.read_size()?>> #1
+        @after <<let length =>> #1
             let ghost hdr = inp.subrange(p0, decoder.pos());
             proof { lemma_prefix_sub(leb(length as nat), inp, p0); }
         @loop 1 iter it
@@ -1128,16 +1450,16 @@ pub mod unit {
                 hdr == leb(length as nat),
                 inp.subrange(p0, decoder.pos()) =~= hdr + enc_list::<X, Y>(fields, it.index@ as nat, true),
                 items_ok::<X, Y>(fields, it.index@ as int, None, b),
-        @before <<fields.push(decoder.decode()?)>> #1
+        @before <<fields.push(>> #1
             let ghost f0 = fields; let ghost pa = decoder.pos();
-        @after <<fields.push(decoder.decode()?)>> #1
+        @after <<fields.push(>> #1
             proof {
                 lemma_enc_list_prefix::<X, Y>(f0, fields, vlen::<X, Y>(f0), true);
                 assert(inp.subrange(p0, decoder.pos()) =~= inp.subrange(p0, pa) + inp.subrange(pa, decoder.pos()));
             }
-        @after <<let discriminator = decoder.read_discriminator()?>> #1
+        @after <<let discriminator =>> #1
             proof { assert(inp.subrange(p0, p0 + 1) =~= seq![discriminator]); }
-        @after <<let length = decoder.read_size()?>> #2
+        @after <<let length =>> #2
             let ghost hdr = inp.subrange(p0, decoder.pos());
             proof {
                 lemma_prefix_sub(leb(length as nat), inp, p0 + 1);
@@ -1152,16 +1474,16 @@ pub mod unit {
                 hdr == seq![discriminator] + leb(length as nat),
                 inp.subrange(p0, decoder.pos()) =~= hdr + enc_list::<X, Y>(fields, it.index@ as nat, true),
                 items_ok::<X, Y>(fields, it.index@ as int, None, b),
-        @before <<fields.push(decoder.decode()?)>> #2
+        @before <<fields.push(>> #2
             let ghost f0 = fields; let ghost pa = decoder.pos();
-        @after <<fields.push(decoder.decode()?)>> #2
+        @after <<fields.push(>> #2
             proof {
                 lemma_enc_list_prefix::<X, Y>(f0, fields, vlen::<X, Y>(f0), true);
                 assert(inp.subrange(p0, decoder.pos()) =~= inp.subrange(p0, pa) + inp.subrange(pa, decoder.pos()));
             }
-        @after <<let element_value_kind = decoder.read_value_kind()?>> #1
+        @after <<let element_value_kind =>> #1
             proof { assert(inp.subrange(p0, p0 + 1) =~= seq![kind_byte(element_value_kind)]); }
-        @after <<let length = decoder.read_size()?>> #3
+        @after <<let length =>> #3
             let ghost hdr = inp.subrange(p0, decoder.pos());
             proof {
                 lemma_prefix_sub(leb(length as nat), inp, p0 + 1);
@@ -1183,9 +1505,9 @@ pub mod unit {
                 lemma_enc_list_prefix::<X, Y>(f0, elements, vlen::<X, Y>(f0), false);
                 assert(inp.subrange(p0, decoder.pos()) =~= inp.subrange(p0, pa) + inp.subrange(pa, decoder.pos()));
             }
-        @after <<let value_value_kind = decoder.read_value_kind()?>> #1
+        @after <<let value_value_kind =>> #1
             proof { assert(inp.subrange(p0, p0 + 2) =~= seq![kind_byte(key_value_kind)] + seq![kind_byte(value_value_kind)]); }
-        @after <<let length = decoder.read_size()?>> #4
+        @after <<let length =>> #4
             let ghost hdr = inp.subrange(p0, decoder.pos());
             proof {
                 lemma_prefix_sub(leb(length as nat), inp, p0 + 2);
@@ -1301,6 +1623,442 @@ pub mod unit {
         @*/
         proof fn law_as_from(x: Self) {}
         proof fn law_from_as(id: u8) {}
+    }
+
+
+    // =============================================================================================
+    // PREFIX-FREENESS of the wire format (spec level): the SAFETY half of the round trip
+    // =============================================================================================
+    pub proof fn lemma_prefix_left(x: Seq<u8>, y: Seq<u8>, z: Seq<u8>)
+        requires is_prefix(x + y, z)
+        ensures is_prefix(x, z)
+    {
+        assert forall|j: int| 0 <= j < x.len() implies x[j] == z[j] by { assert((x + y)[j] == x[j]); }
+    }
+    pub proof fn lemma_prefix_strip(x: Seq<u8>, y: Seq<u8>, w: Seq<u8>)
+        requires is_prefix(x + y, x + w)
+        ensures is_prefix(y, w)
+    {
+        assert forall|j: int| 0 <= j < y.len() implies y[j] == w[j] by {
+            assert((x + y)[x.len() + j] == y[j]);
+            assert((x + w)[x.len() + j] == w[j]);
+        }
+    }
+    pub proof fn lemma_prefix_same_len(x: Seq<u8>, y: Seq<u8>, tail: Seq<u8>)
+        requires is_prefix(x, y + tail), x.len() == y.len()
+        ensures x == y
+    {
+        assert forall|j: int| 0 <= j < x.len() implies x[j] == y[j] by { assert((y + tail)[j] == y[j]); }
+        assert(x =~= y);
+    }
+    /// one header byte in front of both sides
+    pub proof fn lemma_hdr_byte(x: u8, y: u8, p: Seq<u8>, q: Seq<u8>)
+        requires is_prefix(seq![x] + p, seq![y] + q)
+        ensures x == y, is_prefix(p, q)
+    {
+        assert((seq![x] + p)[0] == x);
+        assert((seq![y] + q)[0] == y);
+        lemma_prefix_strip(seq![x], p, q);
+    }
+    /// a size prefix in front of both sides
+    pub proof fn lemma_hdr_leb(n: nat, m: nat, p: Seq<u8>, q: Seq<u8>)
+        requires is_prefix(leb(n) + p, leb(m) + q)
+        ensures n == m, is_prefix(p, q)
+    {
+        lemma_prefix_left(leb(n), p, leb(m) + q);
+        lemma_leb_unique(n, m, q);
+        lemma_prefix_strip(leb(n), p, q);
+    }
+    pub open spec fn pow256(k: nat) -> nat
+        decreases k
+    {
+        if k == 0 { 1 } else { 256 * pow256((k - 1) as nat) }
+    }
+    pub proof fn lemma_pow256()
+        ensures pow256(1) == 0x100, pow256(2) == 0x1_0000, pow256(4) == 0x1_0000_0000, pow256(8) == 0x1_0000_0000_0000_0000,
+            pow256(16) == 0x1_0000_0000_0000_0000int * 0x1_0000_0000_0000_0000int,
+    {
+        reveal_with_fuel(pow256, 5);
+        assert(pow256(4) == 0x1_0000_0000);
+        assert(pow256(8) == 256 * (256 * (256 * (256 * pow256(4)))));
+        assert(pow256(12) == 256 * (256 * (256 * (256 * pow256(8)))));
+        assert(pow256(16) == 256 * (256 * (256 * (256 * pow256(12)))));
+    }
+    pub proof fn lemma_le_len(n: nat, k: nat)
+        ensures le_bytes(n, k).len() == k
+        decreases k
+    {
+        if k > 0 { lemma_le_len(n / 256, (k - 1) as nat); }
+    }
+    pub proof fn lemma_le_inj(n: nat, m: nat, k: nat)
+        requires n < pow256(k), m < pow256(k), le_bytes(n, k) == le_bytes(m, k)
+        ensures n == m
+        decreases k
+    {
+        if k > 0 {
+            let a = le_bytes(n, k); let b = le_bytes(m, k);
+            let ta = le_bytes(n / 256, (k - 1) as nat); let tb = le_bytes(m / 256, (k - 1) as nat);
+            assert(a == seq![(n % 256) as u8] + ta);
+            assert(b == seq![(m % 256) as u8] + tb);
+            assert(a[0] == (n % 256) as u8);
+            assert(b[0] == (m % 256) as u8);
+            assert(ta =~= a.subrange(1, a.len() as int));
+            assert(tb =~= b.subrange(1, b.len() as int));
+            let pk = pow256((k - 1) as nat);
+            assert(n / 256 < pk) by (nonlinear_arith) requires n < 256 * pk;
+            assert(m / 256 < pk) by (nonlinear_arith) requires m < 256 * pk;
+            lemma_le_inj(n / 256, m / 256, (k - 1) as nat);
+        }
+    }
+    /// fixed-width little-endian integers: a prefix-free (and injective) code
+    pub proof fn lemma_int_prefix(n: nat, m: nat, k: nat, tail: Seq<u8>)
+        requires n < pow256(k), m < pow256(k), is_prefix(le_bytes(n, k), le_bytes(m, k) + tail)
+        ensures n == m
+    {
+        lemma_le_len(n, k); lemma_le_len(m, k);
+        lemma_prefix_same_len(le_bytes(n, k), le_bytes(m, k), tail);
+        lemma_le_inj(n, m, k);
+    }
+    pub proof fn lemma_twos(v1: int, v2: int, modulus: int)
+        requires -modulus <= 2 * v1 < modulus, -modulus <= 2 * v2 < modulus, modulus > 0
+        ensures twos(v1, modulus) < modulus, twos(v1, modulus) == twos(v2, modulus) ==> v1 == v2
+    {
+    }
+
+    /// structural equality of values (Vec has no extensional equality in Verus); strings are compared by their UTF-8 bytes
+    pub open spec fn veq<X: CustomValueKind, Y: CustomValue<X>>(a: Value<X, Y>, b: Value<X, Y>) -> bool
+        decreases a
+    {
+        match a {
+            Value::Bool { value } => b is Bool && b->Bool_value == value,
+            Value::I8 { value } => b is I8 && b->I8_value == value,
+            Value::I16 { value } => b is I16 && b->I16_value == value,
+            Value::I32 { value } => b is I32 && b->I32_value == value,
+            Value::I64 { value } => b is I64 && b->I64_value == value,
+            Value::I128 { value } => b is I128 && b->I128_value == value,
+            Value::U8 { value } => b is U8 && b->U8_value == value,
+            Value::U16 { value } => b is U16 && b->U16_value == value,
+            Value::U32 { value } => b is U32 && b->U32_value == value,
+            Value::U64 { value } => b is U64 && b->U64_value == value,
+            Value::U128 { value } => b is U128 && b->U128_value == value,
+            Value::String { value } => b is String && str_bytes(b->String_value) == str_bytes(value),
+            Value::Enum { discriminator, fields } => b is Enum && b->Enum_discriminator == discriminator && b->Enum_fields@.len() == fields@.len()
+                && forall|j: int| 0 <= j < fields@.len() ==> veq(#[trigger] fields@[j], b->Enum_fields@[j]),
+            Value::Array { element_value_kind, elements } => b is Array && b->Array_element_value_kind == element_value_kind
+                && b->Array_elements@.len() == elements@.len()
+                && forall|j: int| 0 <= j < elements@.len() ==> veq(#[trigger] elements@[j], b->Array_elements@[j]),
+            Value::Tuple { fields } => b is Tuple && b->Tuple_fields@.len() == fields@.len()
+                && forall|j: int| 0 <= j < fields@.len() ==> veq(#[trigger] fields@[j], b->Tuple_fields@[j]),
+            Value::Map { key_value_kind, value_value_kind, entries } => b is Map && b->Map_key_value_kind == key_value_kind
+                && b->Map_value_value_kind == value_value_kind && b->Map_entries@.len() == entries@.len()
+                && forall|j: int| 0 <= j < entries@.len() ==> veq((#[trigger] entries@[j]).0, b->Map_entries@[j].0) && veq(entries@[j].1, b->Map_entries@[j].1),
+            Value::Custom { value } => b is Custom && value.same(&b->Custom_value),
+        }
+    }
+
+    /// PREFIX-FREENESS: among the encodable values of one kind no body is a proper prefix of another, and equal bodies
+    /// mean equal values. (For custom values this is the assumed law CustomValue::law_prefix_free.)
+    pub proof fn lemma_prefix_free<X: CustomValueKind, Y: CustomValue<X>>(a: Value<X, Y>, b: Value<X, Y>, ba: int, bb: int, tail: Seq<u8>)
+        requires kind_of(a) == kind_of(b), encodable(a, ba), encodable(b, bb), is_prefix(enc_body(a), enc_body(b) + tail)
+        ensures enc_body(a) == enc_body(b), veq(a, b)
+        decreases a, 1nat
+    {
+        if a is Custom { a->Custom_value.law_kind(); }
+        if b is Custom { b->Custom_value.law_kind(); }
+        if a is Bool { lemma_pf_bool(a, b, ba, bb, tail); }
+        else if a is I8 { lemma_pf_i8(a, b, ba, bb, tail); }
+        else if a is U8 { lemma_pf_u8(a, b, ba, bb, tail); }
+        else if a is I16 { lemma_pf_i16(a, b, ba, bb, tail); }
+        else if a is I32 { lemma_pf_i32(a, b, ba, bb, tail); }
+        else if a is I64 { lemma_pf_i64(a, b, ba, bb, tail); }
+        else if a is I128 { lemma_pf_i128(a, b, ba, bb, tail); }
+        else if a is U16 { lemma_pf_u16(a, b, ba, bb, tail); }
+        else if a is U32 { lemma_pf_u32(a, b, ba, bb, tail); }
+        else if a is U64 { lemma_pf_u64(a, b, ba, bb, tail); }
+        else if a is U128 { lemma_pf_u128(a, b, ba, bb, tail); }
+        else if a is String { lemma_pf_string(a, b, ba, bb, tail); }
+        else if a is Tuple { lemma_pf_tuple(a, b, ba, bb, tail); }
+        else if a is Enum { lemma_pf_enum(a, b, ba, bb, tail); }
+        else if a is Array { lemma_pf_array(a, b, ba, bb, tail); }
+        else if a is Map { lemma_pf_map(a, b, ba, bb, tail); }
+        else if a is Custom { lemma_pf_custom(a, b, ba, bb, tail); }
+    }
+    pub proof fn lemma_pf_bool<X: CustomValueKind, Y: CustomValue<X>>(a: Value<X, Y>, b: Value<X, Y>, ba: int, bb: int, tail: Seq<u8>)
+        requires kind_of(a) == kind_of(b), encodable(a, ba), encodable(b, bb), is_prefix(enc_body(a), enc_body(b) + tail), a is Bool, b is Bool
+        ensures enc_body(a) == enc_body(b), veq(a, b)
+    {
+        lemma_pow256();
+        let ea = enc_body(a); let eb = enc_body(b);
+        assert(ea[0] == (eb + tail)[0]);
+        assert(ea =~= eb);
+    }
+    pub proof fn lemma_pf_i8<X: CustomValueKind, Y: CustomValue<X>>(a: Value<X, Y>, b: Value<X, Y>, ba: int, bb: int, tail: Seq<u8>)
+        requires kind_of(a) == kind_of(b), encodable(a, ba), encodable(b, bb), is_prefix(enc_body(a), enc_body(b) + tail), a is I8, b is I8
+        ensures enc_body(a) == enc_body(b), veq(a, b)
+    {
+        lemma_pow256();
+        let ea = enc_body(a); let eb = enc_body(b);
+        assert(ea[0] == (eb + tail)[0]);
+        lemma_twos(a->I8_value as int, b->I8_value as int, 0x100);
+        assert(ea =~= eb);
+    }
+    pub proof fn lemma_pf_u8<X: CustomValueKind, Y: CustomValue<X>>(a: Value<X, Y>, b: Value<X, Y>, ba: int, bb: int, tail: Seq<u8>)
+        requires kind_of(a) == kind_of(b), encodable(a, ba), encodable(b, bb), is_prefix(enc_body(a), enc_body(b) + tail), a is U8, b is U8
+        ensures enc_body(a) == enc_body(b), veq(a, b)
+    {
+        lemma_pow256();
+        let ea = enc_body(a); let eb = enc_body(b);
+        assert(ea[0] == (eb + tail)[0]);
+        assert(ea =~= eb);
+    }
+    pub proof fn lemma_pf_i16<X: CustomValueKind, Y: CustomValue<X>>(a: Value<X, Y>, b: Value<X, Y>, ba: int, bb: int, tail: Seq<u8>)
+        requires kind_of(a) == kind_of(b), encodable(a, ba), encodable(b, bb), is_prefix(enc_body(a), enc_body(b) + tail), a is I16, b is I16
+        ensures enc_body(a) == enc_body(b), veq(a, b)
+    {
+        lemma_pow256();
+        let ea = enc_body(a); let eb = enc_body(b);
+        lemma_twos(a->I16_value as int, b->I16_value as int, 0x1_0000);
+        lemma_twos(b->I16_value as int, a->I16_value as int, 0x1_0000);
+        lemma_int_prefix(twos(a->I16_value as int, 0x1_0000), twos(b->I16_value as int, 0x1_0000), 2, tail);
+    }
+    pub proof fn lemma_pf_i32<X: CustomValueKind, Y: CustomValue<X>>(a: Value<X, Y>, b: Value<X, Y>, ba: int, bb: int, tail: Seq<u8>)
+        requires kind_of(a) == kind_of(b), encodable(a, ba), encodable(b, bb), is_prefix(enc_body(a), enc_body(b) + tail), a is I32, b is I32
+        ensures enc_body(a) == enc_body(b), veq(a, b)
+    {
+        lemma_pow256();
+        let ea = enc_body(a); let eb = enc_body(b);
+        lemma_twos(a->I32_value as int, b->I32_value as int, 0x1_0000_0000);
+        lemma_twos(b->I32_value as int, a->I32_value as int, 0x1_0000_0000);
+        lemma_int_prefix(twos(a->I32_value as int, 0x1_0000_0000), twos(b->I32_value as int, 0x1_0000_0000), 4, tail);
+    }
+    pub proof fn lemma_pf_i64<X: CustomValueKind, Y: CustomValue<X>>(a: Value<X, Y>, b: Value<X, Y>, ba: int, bb: int, tail: Seq<u8>)
+        requires kind_of(a) == kind_of(b), encodable(a, ba), encodable(b, bb), is_prefix(enc_body(a), enc_body(b) + tail), a is I64, b is I64
+        ensures enc_body(a) == enc_body(b), veq(a, b)
+    {
+        lemma_pow256();
+        let ea = enc_body(a); let eb = enc_body(b);
+        lemma_twos(a->I64_value as int, b->I64_value as int, 0x1_0000_0000_0000_0000);
+        lemma_twos(b->I64_value as int, a->I64_value as int, 0x1_0000_0000_0000_0000);
+        lemma_int_prefix(twos(a->I64_value as int, 0x1_0000_0000_0000_0000), twos(b->I64_value as int, 0x1_0000_0000_0000_0000), 8, tail);
+    }
+    pub proof fn lemma_pf_i128<X: CustomValueKind, Y: CustomValue<X>>(a: Value<X, Y>, b: Value<X, Y>, ba: int, bb: int, tail: Seq<u8>)
+        requires kind_of(a) == kind_of(b), encodable(a, ba), encodable(b, bb), is_prefix(enc_body(a), enc_body(b) + tail), a is I128, b is I128
+        ensures enc_body(a) == enc_body(b), veq(a, b)
+    {
+        lemma_pow256();
+        let ea = enc_body(a); let eb = enc_body(b);
+        let m = 0x1_0000_0000_0000_0000int * 0x1_0000_0000_0000_0000int;
+        lemma_twos(a->I128_value as int, b->I128_value as int, m);
+        lemma_twos(b->I128_value as int, a->I128_value as int, m);
+        lemma_int_prefix(twos(a->I128_value as int, m), twos(b->I128_value as int, m), 16, tail);
+    }
+    pub proof fn lemma_pf_u16<X: CustomValueKind, Y: CustomValue<X>>(a: Value<X, Y>, b: Value<X, Y>, ba: int, bb: int, tail: Seq<u8>)
+        requires kind_of(a) == kind_of(b), encodable(a, ba), encodable(b, bb), is_prefix(enc_body(a), enc_body(b) + tail), a is U16, b is U16
+        ensures enc_body(a) == enc_body(b), veq(a, b)
+    {
+        lemma_pow256();
+        let ea = enc_body(a); let eb = enc_body(b);
+        lemma_int_prefix(a->U16_value as nat, b->U16_value as nat, 2, tail);
+    }
+    pub proof fn lemma_pf_u32<X: CustomValueKind, Y: CustomValue<X>>(a: Value<X, Y>, b: Value<X, Y>, ba: int, bb: int, tail: Seq<u8>)
+        requires kind_of(a) == kind_of(b), encodable(a, ba), encodable(b, bb), is_prefix(enc_body(a), enc_body(b) + tail), a is U32, b is U32
+        ensures enc_body(a) == enc_body(b), veq(a, b)
+    {
+        lemma_pow256();
+        let ea = enc_body(a); let eb = enc_body(b);
+        lemma_int_prefix(a->U32_value as nat, b->U32_value as nat, 4, tail);
+    }
+    pub proof fn lemma_pf_u64<X: CustomValueKind, Y: CustomValue<X>>(a: Value<X, Y>, b: Value<X, Y>, ba: int, bb: int, tail: Seq<u8>)
+        requires kind_of(a) == kind_of(b), encodable(a, ba), encodable(b, bb), is_prefix(enc_body(a), enc_body(b) + tail), a is U64, b is U64
+        ensures enc_body(a) == enc_body(b), veq(a, b)
+    {
+        lemma_pow256();
+        let ea = enc_body(a); let eb = enc_body(b);
+        lemma_int_prefix(a->U64_value as nat, b->U64_value as nat, 8, tail);
+    }
+    pub proof fn lemma_pf_u128<X: CustomValueKind, Y: CustomValue<X>>(a: Value<X, Y>, b: Value<X, Y>, ba: int, bb: int, tail: Seq<u8>)
+        requires kind_of(a) == kind_of(b), encodable(a, ba), encodable(b, bb), is_prefix(enc_body(a), enc_body(b) + tail), a is U128, b is U128
+        ensures enc_body(a) == enc_body(b), veq(a, b)
+    {
+        lemma_pow256();
+        let ea = enc_body(a); let eb = enc_body(b);
+        lemma_int_prefix(a->U128_value as nat, b->U128_value as nat, 16, tail);
+    }
+    pub proof fn lemma_pf_string<X: CustomValueKind, Y: CustomValue<X>>(a: Value<X, Y>, b: Value<X, Y>, ba: int, bb: int, tail: Seq<u8>)
+        requires kind_of(a) == kind_of(b), encodable(a, ba), encodable(b, bb), is_prefix(enc_body(a), enc_body(b) + tail), a is String, b is String
+        ensures enc_body(a) == enc_body(b), veq(a, b)
+    {
+        lemma_pow256();
+        let ea = enc_body(a); let eb = enc_body(b);
+        let sa = str_bytes(a->String_value); let sb = str_bytes(b->String_value);
+        assert(eb + tail =~= leb(sb.len()) + (sb + tail));
+        lemma_hdr_leb(sa.len(), sb.len(), sa, sb + tail);
+        lemma_prefix_same_len(sa, sb, tail);
+    }
+    pub proof fn lemma_pf_tuple<X: CustomValueKind, Y: CustomValue<X>>(a: Value<X, Y>, b: Value<X, Y>, ba: int, bb: int, tail: Seq<u8>)
+        requires kind_of(a) == kind_of(b), encodable(a, ba), encodable(b, bb), is_prefix(enc_body(a), enc_body(b) + tail), a is Tuple, b is Tuple
+        ensures enc_body(a) == enc_body(b), veq(a, b)
+        decreases a, 0nat
+    {
+        lemma_pow256();
+        let ea = enc_body(a); let eb = enc_body(b);
+        let fa = a->Tuple_fields; let fb = b->Tuple_fields;
+        let la = enc_list(fa, fa@.len(), true); let lb = enc_list(fb, fb@.len(), true);
+        assert(eb + tail =~= leb(fb@.len()) + (lb + tail));
+        lemma_hdr_leb(fa@.len(), fb@.len(), la, lb + tail);
+        assert forall|j: int| 0 <= j < fa@.len() implies encodable(#[trigger] fa@[j], ba - 1) by { let x = fa@[j]; }
+        assert forall|j: int| 0 <= j < fb@.len() implies encodable(#[trigger] fb@[j], bb - 1) by { let x = fb@[j]; }
+        lemma_list_prefix_free(fa, fb, fa@.len(), true, ba - 1, bb - 1, tail);
+    }
+    pub proof fn lemma_pf_enum<X: CustomValueKind, Y: CustomValue<X>>(a: Value<X, Y>, b: Value<X, Y>, ba: int, bb: int, tail: Seq<u8>)
+        requires kind_of(a) == kind_of(b), encodable(a, ba), encodable(b, bb), is_prefix(enc_body(a), enc_body(b) + tail), a is Enum, b is Enum
+        ensures enc_body(a) == enc_body(b), veq(a, b)
+        decreases a, 0nat
+    {
+        lemma_pow256();
+        let ea = enc_body(a); let eb = enc_body(b);
+        let fa = a->Enum_fields; let fb = b->Enum_fields;
+        let la = enc_list(fa, fa@.len(), true); let lb = enc_list(fb, fb@.len(), true);
+        assert(ea =~= seq![a->Enum_discriminator] + (leb(fa@.len()) + la));
+        assert(eb + tail =~= seq![b->Enum_discriminator] + (leb(fb@.len()) + (lb + tail)));
+        lemma_hdr_byte(a->Enum_discriminator, b->Enum_discriminator, leb(fa@.len()) + la, leb(fb@.len()) + (lb + tail));
+        lemma_hdr_leb(fa@.len(), fb@.len(), la, lb + tail);
+        assert forall|j: int| 0 <= j < fa@.len() implies encodable(#[trigger] fa@[j], ba - 1) by { let x = fa@[j]; }
+        assert forall|j: int| 0 <= j < fb@.len() implies encodable(#[trigger] fb@[j], bb - 1) by { let x = fb@[j]; }
+        lemma_list_prefix_free(fa, fb, fa@.len(), true, ba - 1, bb - 1, tail);
+    }
+    pub proof fn lemma_pf_array<X: CustomValueKind, Y: CustomValue<X>>(a: Value<X, Y>, b: Value<X, Y>, ba: int, bb: int, tail: Seq<u8>)
+        requires kind_of(a) == kind_of(b), encodable(a, ba), encodable(b, bb), is_prefix(enc_body(a), enc_body(b) + tail), a is Array, b is Array
+        ensures enc_body(a) == enc_body(b), veq(a, b)
+        decreases a, 0nat
+    {
+        lemma_pow256();
+        let ea = enc_body(a); let eb = enc_body(b);
+        let fa = a->Array_elements; let fb = b->Array_elements;
+        let ka = a->Array_element_value_kind; let kb = b->Array_element_value_kind;
+        let la = enc_list(fa, fa@.len(), false); let lb = enc_list(fb, fb@.len(), false);
+        assert(ea =~= seq![kind_byte(ka)] + (leb(fa@.len()) + la));
+        assert(eb + tail =~= seq![kind_byte(kb)] + (leb(fb@.len()) + (lb + tail)));
+        lemma_hdr_byte(kind_byte(ka), kind_byte(kb), leb(fa@.len()) + la, leb(fb@.len()) + (lb + tail));
+        lemma_byte_kinds(ka); lemma_byte_kinds(kb);
+        lemma_hdr_leb(fa@.len(), fb@.len(), la, lb + tail);
+        assert forall|j: int| 0 <= j < fa@.len() implies encodable(#[trigger] fa@[j], ba - 1) && kind_of(fa@[j]) == ka by { let x = fa@[j]; }
+        assert forall|j: int| 0 <= j < fb@.len() implies encodable(#[trigger] fb@[j], bb - 1) && kind_of(fb@[j]) == kb by { let x = fb@[j]; }
+        lemma_list_prefix_free(fa, fb, fa@.len(), false, ba - 1, bb - 1, tail);
+    }
+    pub proof fn lemma_pf_map<X: CustomValueKind, Y: CustomValue<X>>(a: Value<X, Y>, b: Value<X, Y>, ba: int, bb: int, tail: Seq<u8>)
+        requires kind_of(a) == kind_of(b), encodable(a, ba), encodable(b, bb), is_prefix(enc_body(a), enc_body(b) + tail), a is Map, b is Map
+        ensures enc_body(a) == enc_body(b), veq(a, b)
+        decreases a, 0nat
+    {
+        lemma_pow256();
+        let ea = enc_body(a); let eb = enc_body(b);
+        let fa = a->Map_entries; let fb = b->Map_entries;
+        let ka = a->Map_key_value_kind; let kb = b->Map_key_value_kind;
+        let va = a->Map_value_value_kind; let vb = b->Map_value_value_kind;
+        let la = enc_entries(fa, fa@.len()); let lb = enc_entries(fb, fb@.len());
+        assert(ea =~= seq![kind_byte(ka)] + (seq![kind_byte(va)] + (leb(fa@.len()) + la)));
+        assert(eb + tail =~= seq![kind_byte(kb)] + (seq![kind_byte(vb)] + (leb(fb@.len()) + (lb + tail))));
+        lemma_hdr_byte(kind_byte(ka), kind_byte(kb), seq![kind_byte(va)] + (leb(fa@.len()) + la), seq![kind_byte(vb)] + (leb(fb@.len()) + (lb + tail)));
+        lemma_hdr_byte(kind_byte(va), kind_byte(vb), leb(fa@.len()) + la, leb(fb@.len()) + (lb + tail));
+        lemma_byte_kinds(ka); lemma_byte_kinds(kb); lemma_byte_kinds(va); lemma_byte_kinds(vb);
+        lemma_hdr_leb(fa@.len(), fb@.len(), la, lb + tail);
+        assert forall|j: int| 0 <= j < fa@.len() implies encodable((#[trigger] fa@[j]).0, ba - 1) && encodable(fa@[j].1, ba - 1)
+            && kind_of(fa@[j].0) == ka && kind_of(fa@[j].1) == va by { let x = fa@[j]; }
+        assert forall|j: int| 0 <= j < fb@.len() implies encodable((#[trigger] fb@[j]).0, bb - 1) && encodable(fb@[j].1, bb - 1)
+            && kind_of(fb@[j].0) == kb && kind_of(fb@[j].1) == vb by { let x = fb@[j]; }
+        lemma_entries_prefix_free(fa, fb, fa@.len(), ba - 1, bb - 1, tail);
+    }
+    pub proof fn lemma_pf_custom<X: CustomValueKind, Y: CustomValue<X>>(a: Value<X, Y>, b: Value<X, Y>, ba: int, bb: int, tail: Seq<u8>)
+        requires kind_of(a) == kind_of(b), encodable(a, ba), encodable(b, bb), is_prefix(enc_body(a), enc_body(b) + tail), a is Custom, b is Custom
+        ensures enc_body(a) == enc_body(b), veq(a, b)
+    {
+        lemma_pow256();
+        let ea = enc_body(a); let eb = enc_body(b);
+        a->Custom_value.law_prefix_free(&b->Custom_value, ba, bb, tail);
+    }
+    pub proof fn lemma_list_prefix_free<X: CustomValueKind, Y: CustomValue<X>>(a: Vec<Value<X, Y>>, b: Vec<Value<X, Y>>, n: nat, wk: bool, ba: int, bb: int, tail: Seq<u8>)
+        requires
+            n <= a@.len(), n <= b@.len(),
+            forall|j: int| 0 <= j < n ==> encodable(#[trigger] a@[j], ba),
+            forall|j: int| 0 <= j < n ==> encodable(#[trigger] b@[j], bb),
+            !wk ==> forall|j: int| 0 <= j < n ==> kind_of(#[trigger] a@[j]) == kind_of(b@[j]),
+            is_prefix(enc_list(a, n, wk), enc_list(b, n, wk) + tail),
+        ensures
+            enc_list(a, n, wk) == enc_list(b, n, wk),
+            forall|j: int| 0 <= j < n ==> veq(#[trigger] a@[j], b@[j]),
+        decreases a, n
+    {
+        if n > 0 {
+            let m = (n - 1) as nat;
+            let x = a@[m as int]; let y = b@[m as int];
+            let ka = if wk { seq![kind_byte(kind_of(x))] } else { Seq::<u8>::empty() };
+            let kb = if wk { seq![kind_byte(kind_of(y))] } else { Seq::<u8>::empty() };
+            let pa = enc_list(a, m, wk); let pb = enc_list(b, m, wk);
+            assert(enc_list(a, n, wk) == pa + ka + enc_body(x));
+            assert(enc_list(b, n, wk) == pb + kb + enc_body(y));
+            let t1 = kb + (enc_body(y) + tail);
+            assert(enc_list(b, n, wk) + tail =~= pb + t1);
+            assert(enc_list(a, n, wk) =~= pa + (ka + enc_body(x)));
+            lemma_prefix_left(pa, ka + enc_body(x), pb + t1);
+            lemma_list_prefix_free(a, b, m, wk, ba, bb, t1);
+            lemma_prefix_strip(pa, ka + enc_body(x), t1);
+            if wk {
+                lemma_hdr_byte(kind_byte(kind_of(x)), kind_byte(kind_of(y)), enc_body(x), enc_body(y) + tail);
+                lemma_byte_kinds(kind_of(x)); lemma_byte_kinds(kind_of(y));
+            } else {
+                assert(ka + enc_body(x) =~= enc_body(x));
+                assert(t1 =~= enc_body(y) + tail);
+            }
+            lemma_prefix_free(x, y, ba, bb, tail);
+            assert forall|j: int| 0 <= j < n implies veq(#[trigger] a@[j], b@[j]) by { if j == m { } }
+        }
+    }
+    pub proof fn lemma_entries_prefix_free<X: CustomValueKind, Y: CustomValue<X>>(a: Vec<(Value<X, Y>, Value<X, Y>)>, b: Vec<(Value<X, Y>, Value<X, Y>)>, n: nat, ba: int, bb: int, tail: Seq<u8>)
+        requires
+            n <= a@.len(), n <= b@.len(),
+            forall|j: int| 0 <= j < n ==> encodable((#[trigger] a@[j]).0, ba) && encodable(a@[j].1, ba),
+            forall|j: int| 0 <= j < n ==> encodable((#[trigger] b@[j]).0, bb) && encodable(b@[j].1, bb),
+            forall|j: int| 0 <= j < n ==> kind_of((#[trigger] a@[j]).0) == kind_of(b@[j].0) && kind_of(a@[j].1) == kind_of(b@[j].1),
+            is_prefix(enc_entries(a, n), enc_entries(b, n) + tail),
+        ensures
+            enc_entries(a, n) == enc_entries(b, n),
+            forall|j: int| 0 <= j < n ==> veq((#[trigger] a@[j]).0, b@[j].0) && veq(a@[j].1, b@[j].1),
+        decreases a, n
+    {
+        if n > 0 {
+            let m = (n - 1) as nat;
+            let x = a@[m as int]; let y = b@[m as int];
+            let pa = enc_entries(a, m); let pb = enc_entries(b, m);
+            assert(enc_entries(a, n) == pa + enc_body(x.0) + enc_body(x.1));
+            assert(enc_entries(b, n) == pb + enc_body(y.0) + enc_body(y.1));
+            let t1 = enc_body(y.0) + (enc_body(y.1) + tail);
+            assert(enc_entries(b, n) + tail =~= pb + t1);
+            assert(enc_entries(a, n) =~= pa + (enc_body(x.0) + enc_body(x.1)));
+            lemma_prefix_left(pa, enc_body(x.0) + enc_body(x.1), pb + t1);
+            lemma_entries_prefix_free(a, b, m, ba, bb, t1);
+            lemma_prefix_strip(pa, enc_body(x.0) + enc_body(x.1), t1);
+            lemma_prefix_left(enc_body(x.0), enc_body(x.1), t1);
+            lemma_prefix_free(x.0, y.0, ba, bb, enc_body(y.1) + tail);
+            lemma_prefix_strip(enc_body(x.0), enc_body(x.1), enc_body(y.1) + tail);
+            lemma_prefix_free(x.1, y.1, ba, bb, tail);
+            assert forall|j: int| 0 <= j < n implies veq((#[trigger] a@[j]).0, b@[j].0) && veq(a@[j].1, b@[j].1) by { if j == m { } }
+        }
+    }
+
+    /// SAFETY half of the round trip (D2, partial): if a decoder meeting the `Decode` contract ACCEPTS an input whose unread part
+    /// starts with the body of an encodable value v of the requested kind, then the value it returns equals v (veq) and it has
+    /// consumed exactly the bytes of v. (That it does accept such an input -- completeness -- is NOT proved.)
+    pub proof fn lemma_decode_returns_encoded<X: CustomValueKind, Y: CustomValue<X>>(k: ValueKind<X>, inp: Seq<u8>, p0: int, p1: int, d0: (int, int), d1: (int, int),
+        r: Value<X, Y>, v: Value<X, Y>, bv: int)
+        requires
+            0 <= p0,
+            dec_body_post(k, inp, p0, d0, inp, p1, d1, Ok::<Value<X, Y>, DecodeError>(r)),
+            kind_of(v) == k, encodable(v, bv), is_prefix(enc_body(v), rest_of(inp, p0)),
+        ensures veq(v, r), p1 == p0 + enc_body(v).len()
+    {
+        assert(rest_of(inp, p0) =~= inp.subrange(p0, p1) + rest_of(inp, p1));
+        lemma_prefix_free(v, r, bv, budget(d0), rest_of(inp, p1));
     }
 
     // =============================================================================================
